@@ -60,13 +60,14 @@ impl Prop for C06 {
         "case = (2..=12 finite knots; abscissa patterns: strictly increasing, steps from the gap table {0, eps/2, eps(1-2^-53), eps, eps(1+2^-52), 2eps, 10eps, 0.5, 1, 3} starting at 0/-0/2^-27/0.5/±1/±1e18, arbitrary order (several out-of-order knots in a row), few distinct values with repeats, any finite; ordinates moderate or any finite; evaluation points from the knots' alphabet). Oracle: X = running maximum of the abscissae (model); (1) n-1 segments, end_i == X_(i+1) (bits; a signed-zero tie may resolve either way); (2) with the EXACT width w = X_(i+1)-X_i: w < eps(1-2^-53) => the piece is the constant y_i (c1 == 0, c0 == y_i); w >= eps => the returned line, evaluated exactly, passes through (X_i,y_i) within 8u(|y_i|+|c1 X_i|) and through (X_(i+1),y_(i+1)) within 8u(|y_i|+|y_(i+1)|+|c1|(|X_i|+|X_(i+1)|)); in the sliver between either behaviour is accepted; (3) strictly increasing abscissae with gaps >= eps: Piecewise::evaluate at every knot, between knots and outside agrees with the exact straight line through the proper knot pair within the same magnitudes plus the Poly1 evaluation bound. Value clauses only when all non-zero |x|,|y| lie in [2^-200, 2^200]. Non-trivial: >=3 knots and (an out-of-order or repeated abscissa, or a gap within [eps/2, 2eps], or an evaluation exactly at an interior knot).".into()
     }
     fn cases(&self, tier: Tier) -> u64 {
-        tier.pick(200_000, 5_000_000)
+        tier.pick(400_000, 6_000_000)
     }
     fn strategy(&self, _tier: Tier) -> BoxedStrategy<Case> {
         let ys = prop_oneof![4 => vec(gen::moderate(20), 12), 1 => vec(gen::any_finite(), 12)];
-        (xs_strategy(), ys, vec(any::<u16>(), 6), vec(gen::moderate(8), 2))
-            .prop_map(|(xs, ys, qs, extra)| {
+        (xs_strategy(), ys, vec(any::<u16>(), 6), vec(gen::moderate(8), 2), gen::common_scale(150))
+            .prop_map(|(xs, ys, qs, extra, sc)| {
                 let n = xs.len();
+                let ys: Vec<f64> = ys.into_iter().map(|v| if (v * sc).is_finite() { v * sc } else { v }).collect();
                 let a = gen::alphabet(&xs, &extra, false);
                 let fin: Vec<f64> = a.into_iter().filter(|t| t.is_finite() && t.abs() < 1e30).collect();
                 let ts: Vec<f64> = if fin.is_empty() { vec![0.0] } else { qs.iter().map(|&q| fin[idx(q, fin.len())]).collect() };
